@@ -1,146 +1,4 @@
-//! hv - runtime monitors for the h263-rs properties C01..C17.
-//!
-//!   hv run <Cxx> --tier quick|thorough --seed N --stage <name> --out <file> [--threads N]
-//!   hv replay <file>
-//!   hv selfcheck            (model tables vs. structural rules)
-
-#![allow(dead_code)]
-mod gen;
-mod json;
-mod model;
-mod mon;
-mod report;
-mod sut;
-mod util;
-
-use json::J;
-use report::Report;
-
-#[derive(Clone, Copy, PartialEq, Eq, Debug)]
-pub enum Tier {
-    Quick,
-    Thorough,
-}
-
-#[derive(Clone, Debug)]
-pub struct Ctx {
-    pub tier: Tier,
-    pub seed: u64,
-    pub threads: usize,
-    pub stage: String,
-    /// Workload scale in percent (sanitizer stages run the same monitors on smaller workloads).
-    pub scale_pct: u64,
-}
-
-impl Ctx {
-    pub fn tier_name(&self) -> &'static str {
-        match self.tier {
-            Tier::Quick => "quick",
-            Tier::Thorough => "thorough",
-        }
-    }
-    /// Pick the workload size for the tier, then apply the stage scale.
-    pub fn n(&self, quick: u64, thorough: u64) -> u64 {
-        let base = if self.tier == Tier::Quick { quick } else { thorough };
-        (base * self.scale_pct / 100).max(1)
-    }
-    pub fn is_main(&self) -> bool {
-        self.stage == "chk" || self.stage == "rel"
-    }
-    pub fn miri(&self) -> bool {
-        self.stage == "miri"
-    }
-}
-
-fn arg_val(args: &[String], name: &str) -> Option<String> {
-    args.iter().position(|a| a == name).and_then(|i| args.get(i + 1).cloned())
-}
-
+//! hv - runtime monitors for the h263-rs properties C01..C17 (see lib.rs).
 fn main() {
-    let args: Vec<String> = std::env::args().collect();
-    if args.len() < 2 {
-        eprintln!("usage: hv run <Cxx> ... | hv replay <file> | hv selfcheck");
-        std::process::exit(2);
-    }
-    match args[1].as_str() {
-        "selfcheck" => match model::tables::self_check() {
-            Ok(()) => println!("tables ok"),
-            Err(e) => {
-                println!("tables BAD: {}", e);
-                std::process::exit(3);
-            }
-        },
-        "run" => {
-            let prop = args.get(2).cloned().unwrap_or_default();
-            let tier = match arg_val(&args, "--tier").as_deref() {
-                Some("thorough") => Tier::Thorough,
-                _ => Tier::Quick,
-            };
-            let seed: u64 = arg_val(&args, "--seed").and_then(|s| s.parse().ok()).unwrap_or(1);
-            let threads: usize = arg_val(&args, "--threads").and_then(|s| s.parse().ok()).unwrap_or(16);
-            let stage = arg_val(&args, "--stage").unwrap_or_else(|| "chk".into());
-            let scale_pct: u64 = arg_val(&args, "--scale").and_then(|s| s.parse().ok()).unwrap_or(100);
-            let out = arg_val(&args, "--out");
-            let part: usize = arg_val(&args, "--part").and_then(|s| s.parse().ok()).unwrap_or(0);
-            let parts: usize = arg_val(&args, "--parts").and_then(|s| s.parse().ok()).unwrap_or(1);
-            util::set_partition(part, parts);
-            let ctx = Ctx { tier, seed, threads, stage: stage.clone(), scale_pct };
-            if stage == "miri" {
-                // the structural table check is done by the native stages; skip it in the interpreter
-            } else if let Err(e) = model::tables::self_check() {
-                eprintln!("model table self-check failed: {}", e);
-                std::process::exit(3);
-            }
-            let t0 = std::time::Instant::now();
-            let (rep, rule): (Report, String) = match mon::run(&prop, &ctx) {
-                Some(x) => x,
-                None => {
-                    eprintln!("unknown property {}", prop);
-                    std::process::exit(2);
-                }
-            };
-            let wall = t0.elapsed().as_secs_f64();
-            let j = rep.to_json(&prop, &stage, ctx.tier_name(), seed, &rule, wall);
-            let s = j.to_string();
-            match out {
-                Some(p) => std::fs::write(&p, s).expect("write out"),
-                None => println!("{}", s),
-            }
-            eprintln!(
-                "[hv] {} stage={} tier={} seed={} evaluations={} distinct={} violations={} inconclusive={} wall={:.1}s",
-                prop,
-                stage,
-                ctx.tier_name(),
-                seed,
-                rep.evaluations,
-                rep.distinct.len() as u64 + rep.distinct_enumerated,
-                rep.violations.len(),
-                rep.inconclusive.len(),
-                wall
-            );
-        }
-        "replay" => {
-            let path = args.get(2).expect("replay file");
-            let txt = std::fs::read_to_string(path).expect("read replay");
-            let j = J::parse(&txt).expect("parse replay");
-            let code = mon::replay(&j);
-            std::process::exit(code);
-        }
-        "corpus" => {
-            let dir = args.get(2).cloned().unwrap_or_default();
-            let seed: u64 = args.get(3).and_then(|s| s.parse().ok()).unwrap_or(1);
-            std::process::exit(mon::c01::write_corpus(&dir, seed));
-        }
-        "digest17" => {
-            std::process::exit(mon::c17::digest_main(&args[2..]));
-        }
-        "worker" => {
-            let code = mon::c01::worker_main(&args[2..]);
-            std::process::exit(code);
-        }
-        other => {
-            eprintln!("unknown command {}", other);
-            std::process::exit(2);
-        }
-    }
+    hv::real_main()
 }
